@@ -19,11 +19,31 @@
   NOT PROVED (so C10 as a whole is PARTIAL): uniqueness of ALL scaffold names inside each output assembly, the
   `<prefix>1..n` numbering by `buildGroups` / `nameGroup` / the stable sort of groups in `assembliesFused`, and the
   autosomes-first `smartSort` order.  The full statement of C10 is in /verif/lean/tasks/C09.md.
+
+  ADDED (wave 2, sections "single-haplotype chromosome numbering" at the end of this file; helpers in
+  Proofs/C10Groups*.lean) — for ONE haplotype key in `haplotypes_seen`:
+    * `replace_all_head`, `replace_all_absent`, `name_group_single`   [str.replace / ChrGroup.name_chromosome]
+    * `build_groups_single`                                            [ChrNamer.build_groups]
+    * `numbering_single`, `assemblies_fused_single`                    [ChrNamer.name_chromosomes inside
+                                                                        assemblies_with_scaffolds_fused]
+    * `generated_names_unique`, `chr_numbers_nodup`, `names_unique_autosomes`
+    * `output_order`, `unloc_directly_after`                           [smart_sort_scaffolds on every output assembly]
+  FINDING recorded there: `name.replace(orig, chr)` replaces EVERY occurrence of the Pretext scaffold name, so the
+  "<chr>_unloc_<k>" shape needs the side condition that the Pretext name does not occur inside "_unloc_<k>"
+  (counterexample `name_group_replace_counterexample`: Pretext scaffold called "c").
+  STILL NOT PROVED: the two-haplotype grouping (Singleton tag, consecutive-haplotype errors, A/B/C suffixes) — stated as
+  a commented goal at the end; uniqueness across rank-2 / rank-3 / haplotig names inside one assembly.
 -/
 import AgpTpf.Model.Remap
 import AgpTpf.Proofs.C10
 import AgpTpf.Proofs.C10Csv
 import AgpTpf.Proofs.C10Rename
+import AgpTpf.Proofs.C10Groups
+import AgpTpf.Proofs.C10GroupsBuild
+import AgpTpf.Proofs.C10GroupsNumber
+import AgpTpf.Proofs.C10GroupsNames
+import AgpTpf.Proofs.C10GroupsOut
+import AgpTpf.Properties.C20
 namespace AgpTpf.C10
 open AgpTpf
 
@@ -278,5 +298,403 @@ example :
        { name := "S_X".toList, rank := 2, originalName := some ['C'] }] =
       [("S_1".toList, "1".toList, true), ("S_1_unloc_1".toList, "1".toList, false), ("S_X".toList, "X".toList, true)] := by
   decide
+
+
+/-! # Single-haplotype chromosome numbering (`ChrGroup`, `ChrNamer`)
+
+Everything below is for ONE haplotype key `h` in `haplotypes_seen` (`haps = [h]`), the case of an ordinary
+single-haplotype curation.  Vocabulary (definitions in `Proofs/C10Groups*.lean`):
+  * `origOf fs sid`       Pretext scaffold name (`original_name`) of the fused scaffold `sid`, `[]` if absent
+  * `origPairs fs es`     the `ChrNamer.scaffolds` list as `(original_name, id)` pairs
+  * `Run = Str × List Nat`, `groupRuns`  decomposition into maximal runs of equal names (`groupRuns_spec`)
+  * `mkGroup h (o, ids) = [(h, [(o, ids)])]`   the `ChrGroup.data` dict `{h: {o: ids}}`
+  * `runLength fs r`      summed `fragments_length` of the scaffolds of a run (chromosome + its unlocs)
+  * `sortedRuns fs rs`    `rs` stably sorted by `runLength`, longest first
+  * `nameChromosomes`     the `name_chromosomes` block of `assembliesFused`, verbatim (`finishAssemblies_eq_name`)
+  * `occursIn old s`      Python `old in s` (`occurs_in_iff`)
+-/
+
+/-! ## G2  `str.replace` and `ChrGroup.name_chromosome` on a one-name group -/
+
+theorem occurs_in_iff (old s : Str) : occursIn old s = true ↔ ∃ pre post, s = pre ++ old ++ post := occursIn_iff old s
+
+/-- `(old ++ rest).replace(old, new) = new ++ rest.replace(old, new)` (non-empty `old`) -/
+theorem replace_all_head (old new rest : Str) (hne : old ≠ []) (fuel : Nat) :
+    replaceAll old new (fuel + 1) (old ++ rest) = new ++ replaceAll old new fuel rest :=
+  replaceAll_prefix old new hne fuel rest
+
+/-- `s.replace(old, new) = s` when `old` does not occur in `s` -/
+theorem replace_all_absent (old new s : Str) (fuel : Nat) (h : occursIn old s = false) :
+    replaceAll old new fuel s = s := replaceAll_noOcc old new fuel s h
+
+/-- the fuel the model passes (`len(name) + 1`) is enough: any two sufficient amounts give the same result -/
+theorem replace_all_fuel (old new s : Str) (fuel fuel' : Nat) (h : s.length ≤ fuel) (h' : s.length ≤ fuel') :
+    replaceAll old new fuel s = replaceAll old new fuel' s := replaceAll_fuel old new fuel fuel' s h h'
+
+example : replaceAll "ab".toList "X".toList 8 "abcabab".toList = "XcXX".toList := by decide
+example : occursIn "ab".toList "ba".toList = false ∧ occursIn "ab".toList "cab".toList = true := by decide
+
+/-- **G2.**  `name_chromosome(prefix, n)` on the group `{h: {orig: ids}}`: exactly the scaffolds `ids` are touched; in
+    each of them every occurrence of `orig` in the name is replaced by `prefix ++ str(n)` and no other attribute
+    changes; a scaffold called `orig` becomes `prefix ++ str(n)`; a scaffold called `orig ++ suf` in whose `suf` the
+    Pretext name does not occur again becomes `prefix ++ str(n) ++ suf`. -/
+theorem name_group_single (fs : List Scaffold) (h orig : Str) (ids : List Nat) (prefix_ : Str) (n : Nat)
+    (hnd : ids.Nodup) :
+    let fs' := nameGroup fs [(h, [(orig, ids)])] prefix_ n
+    let chr := prefix_ ++ natToStr n
+    fs'.length = fs.length ∧
+    (∀ j, j ∉ ids → fs'.getD j default = fs.getD j default) ∧
+    (∀ j ∈ ids, fs'.getD j default =
+      { fs.getD j default with
+        name := replaceAll orig chr ((fs.getD j default).name.length + 1) (fs.getD j default).name }) ∧
+    (orig ≠ [] → ∀ j ∈ ids, (fs.getD j default).name = orig → (fs'.getD j default).name = chr) ∧
+    (orig ≠ [] → ∀ j ∈ ids, ∀ suf, (fs.getD j default).name = orig ++ suf → occursIn orig suf = false →
+      (fs'.getD j default).name = chr ++ suf) := by
+  intro fs' chr
+  have hfs' : fs' = ids.foldl (renameAt orig chr) fs := nameGroup_single_eq fs h orig ids prefix_ n
+  obtain ⟨a, b, c⟩ := foldl_renameAt orig chr ids fs hnd
+  rw [← hfs'] at a b c
+  refine ⟨a, b, c, ?_, ?_⟩
+  · intro hne j hj hn
+    rw [c j hj]; unfold renameScaffold; simp only; rw [hn]
+    exact replaceAll_self orig chr hne _
+  · intro hne j hj suf hn ho
+    rw [c j hj]; unfold renameScaffold; simp only; rw [hn]
+    exact replaceAll_prefix_noOcc orig chr hne _ suf ho
+
+/-- without `ids.Nodup` (an id listed twice is renamed twice) the frame part still holds -/
+theorem name_group_single_frame (fs : List Scaffold) (h orig : Str) (ids : List Nat) (prefix_ : Str) (n : Nat) :
+    let fs' := nameGroup fs [(h, [(orig, ids)])] prefix_ n
+    fs'.length = fs.length ∧ (∀ j, j ∉ ids → fs'.getD j default = fs.getD j default) := by
+  intro fs'
+  have hfs' : fs' = ids.foldl (renameAt orig (prefix_ ++ natToStr n)) fs := nameGroup_single_eq fs h orig ids prefix_ n
+  rw [hfs']
+  exact foldl_renameAt_frame orig _ ids fs
+
+/-- the unloc shape: `orig ++ "_unloc_" ++ str(k)` becomes `prefix ++ str(n) ++ "_unloc_" ++ str(k)` provided the
+    Pretext name has a character that is neither a digit nor one of `_ u n l o c` (true of every `Scaffold_<i>`). -/
+theorem name_group_single_unloc (fs : List Scaffold) (h orig : Str) (ids : List Nat) (prefix_ : Str) (n k : Nat)
+    (hnd : ids.Nodup) (c : Char) (hc : c ∈ orig) (hd : isDigit c = false) (hu : c ∉ ['_', 'u', 'n', 'l', 'o', 'c'])
+    (j : Nat) (hj : j ∈ ids) (hn : (fs.getD j default).name = orig ++ "_unloc_".toList ++ natToStr k) :
+    ((nameGroup fs [(h, [(orig, ids)])] prefix_ n).getD j default).name
+      = prefix_ ++ natToStr n ++ "_unloc_".toList ++ natToStr k := by
+  have hne : orig ≠ [] := by intro e; rw [e] at hc; cases hc
+  have := (name_group_single fs h orig ids prefix_ n hnd).2.2.2.2 hne j hj (unlocSuffix k)
+    (by rw [hn, List.append_assoc]; rfl) (not_occurs_unloc orig k c hc hd hu)
+  rw [this, List.append_assoc]; rfl
+
+/-- non-vacuity of G2: chromosome, its unloc, an untouched scaffold -/
+example :
+    (nameGroup [{ name := "Scaffold_7".toList }, { name := "other".toList }, { name := "Scaffold_7_unloc_1".toList }]
+        [("None".toList, [("Scaffold_7".toList, [0, 2])])] "SUPER_".toList 3).map (·.name)
+      = ["SUPER_3".toList, "other".toList, "SUPER_3_unloc_1".toList] := by decide
+example : 'S' ∈ "Scaffold_7".toList ∧ isDigit 'S' = false ∧ 'S' ∉ ['_', 'u', 'n', 'l', 'o', 'c'] ∧ [0, 2].Nodup := by
+  decide
+
+/-- **FINDING (the side condition of the unloc shape cannot be dropped).**  `str.replace` replaces every occurrence:
+    a Pretext scaffold called `c` with one unloc `c_unloc_1` is named `SUPER_1` / `SUPER_1_unloSUPER_1_1`, not
+    `SUPER_1_unloc_1`.  (Pretext itself calls its scaffolds `Scaffold_<n>`, for which `name_group_single_unloc`
+    applies; the model — like the Python — accepts any name.) -/
+theorem name_group_replace_counterexample :
+    (nameGroup [{ name := "c".toList }, { name := "c_unloc_1".toList }]
+        [("None".toList, [("c".toList, [0, 1])])] "SUPER_".toList 1).map (·.name)
+      = ["SUPER_1".toList, "SUPER_1_unloSUPER_1_1".toList] := by decide
+
+/-! ## G1  `ChrNamer.build_groups` with one haplotype -/
+
+example (h o : Str) (ids : List Nat) : mkGroup h (o, ids) = [(h, [(o, ids)])] := rfl
+
+/-- what `groupRuns` means: concatenating the runs gives the list back, no run is empty, neighbouring runs have
+    different names — i.e. the runs are the maximal blocks of equal names -/
+theorem group_runs_spec (l : List (Str × Nat)) :
+    flattenRuns (groupRuns l) = l ∧ (∀ r ∈ groupRuns l, r.2 ≠ []) ∧ AdjDistinct (groupRuns l) := groupRuns_spec l
+
+/-- **G1.**  With `haplotypes_seen = [h]` and a non-empty scaffold list all under `h`:
+    if every scaffold has a non-empty `original_name`, `build_groups` returns — in order — one group
+    `{h: {orig: ids}}` per maximal run of consecutive scaffolds with the same `original_name` (a chromosome followed by
+    its unlocs), and `check_groups` finds no error; if some scaffold has an empty or absent `original_name`, it raises
+    `ValueError`.  (The two cases are exhaustive, so it fails exactly in the second.) -/
+theorem build_groups_single (fs : List Scaffold) (h : Str) (entries : List (Str × Nat)) (hne : entries ≠ [])
+    (hh : ∀ e ∈ entries, e.1 = h) :
+    ((∀ e ∈ entries, truthy (fs.getD e.2 default).originalName = true) →
+        buildGroups fs [h] entries = .ok ((groupRuns (origPairs fs entries)).map (mkGroup h)) ∧
+        groupsHaveErrors ((groupRuns (origPairs fs entries)).map (mkGroup h)) = false) ∧
+    ((∃ e ∈ entries, truthy (fs.getD e.2 default).originalName = false) →
+        buildGroups fs [h] entries = .error .value) :=
+  ⟨fun hg => ⟨buildGroups_single_ok fs h entries hne hh hg, groupsHaveErrors_single h _⟩,
+   fun hb => buildGroups_single_bad fs h entries hh hb⟩
+
+theorem build_groups_single_fails_iff (fs : List Scaffold) (h : Str) (entries : List (Str × Nat)) (hne : entries ≠ [])
+    (hh : ∀ e ∈ entries, e.1 = h) :
+    (∃ err, buildGroups fs [h] entries = .error err) ↔
+      ∃ e ∈ entries, truthy (fs.getD e.2 default).originalName = false := by
+  constructor
+  · rintro ⟨err, herr⟩
+    by_cases hg : ∀ e ∈ entries, truthy (fs.getD e.2 default).originalName = true
+    · rw [buildGroups_single_ok fs h entries hne hh hg] at herr; cases herr
+    · simp only [not_forall] at hg
+      obtain ⟨e, he, hbad⟩ := hg
+      exact ⟨e, he, by simpa using hbad⟩
+  · intro hb; exact ⟨_, buildGroups_single_bad fs h entries hh hb⟩
+
+/-- three fused scaffolds: chromosome A, its unloc, chromosome B -/
+def exFs : List Scaffold :=
+  [{ name := "Scaffold_1".toList, rank := 1, originalName := some "Scaffold_1".toList,
+     rows := [.frag { name := "a".toList, start := 1, stop := 100, strand := 1 }] },
+   { name := "Scaffold_1_unloc_1".toList, rank := 1, originalName := some "Scaffold_1".toList,
+     rows := [.frag { name := "b".toList, start := 1, stop := 50, strand := 1 }] },
+   { name := "Scaffold_2".toList, rank := 1, originalName := some "Scaffold_2".toList,
+     rows := [.frag { name := "c".toList, start := 1, stop := 300, strand := 1 }] }]
+def exEntries : List (Str × Nat) := [(sNone, 0), (sNone, 1), (sNone, 2)]
+
+example : buildGroups exFs [sNone] exEntries =
+    .ok [[(sNone, [("Scaffold_1".toList, [0, 1])])], [(sNone, [("Scaffold_2".toList, [2])])]] := by decide
+example : exEntries ≠ [] ∧ (∀ e ∈ exEntries, e.1 = sNone) ∧
+    (∀ e ∈ exEntries, truthy (exFs.getD e.2 default).originalName = true) ∧ (exEntries.map (·.2)).Nodup := by decide
+example : buildGroups [{ name := "x".toList, rank := 1 }] [sNone] [(sNone, 0)] = .error .value := by decide
+
+/-! ## G3  numbering 1..n by size -/
+
+/-- **G3.**  `name_chromosomes` with one haplotype never fails once every scaffold has an `original_name`, and:
+    the runs (chromosome + unlocs) are put in `sorted` order = non-increasing total fragments length, runs of equal
+    length staying in Pretext order (stable); the run at position `k` (0-based) gets the number `k+1` — so the numbers
+    used are exactly `1..n`, `n` the number of runs, each run being non-empty —: in every scaffold of that run the
+    Pretext name is replaced by `prefix ++ str(k+1)`; every `ChrNamer` scaffold lies in one of the runs, under its own
+    Pretext name; scaffolds not handed to `ChrNamer` are untouched. -/
+theorem numbering_single (prefix_ : Str) (fs : List Scaffold) (h : Str) (entries : List (Str × Nat))
+    (hne : entries ≠ []) (hh : ∀ e ∈ entries, e.1 = h)
+    (hg : ∀ e ∈ entries, truthy (fs.getD e.2 default).originalName = true) (hnd : (entries.map (·.2)).Nodup) :
+    let runs := groupRuns (origPairs fs entries)
+    let sorted := sortedRuns fs runs
+    ∃ fs', nameChromosomes prefix_ fs [h] entries = .ok fs' ∧
+      sorted.Perm runs ∧
+      sorted.Pairwise (fun a b => runLength fs a ≥ runLength fs b) ∧
+      (∀ L : Int, sorted.filter (fun r => runLength fs r = L) = runs.filter (fun r => runLength fs r = L)) ∧
+      (∀ r ∈ sorted, r.2 ≠ []) ∧
+      fs'.length = fs.length ∧
+      (∀ j, j ∉ entries.map (·.2) → fs'.getD j default = fs.getD j default) ∧
+      (∀ k (hk : k < sorted.length), ∀ j ∈ sorted[k].2,
+        fs'.getD j default =
+          { fs.getD j default with
+            name := replaceAll sorted[k].1 (prefix_ ++ natToStr (k + 1)) ((fs.getD j default).name.length + 1)
+                      (fs.getD j default).name }) ∧
+      (∀ e ∈ entries, ∃ k, ∃ hk : k < sorted.length, e.2 ∈ sorted[k].2 ∧ sorted[k].1 = origOf fs e.2) := by
+  intro runs sorted
+  refine ⟨_, nameChromosomes_single prefix_ fs h entries hne hh hg, sortedRuns_perm fs runs, sortedRuns_sorted fs runs,
+    sortedRuns_stable fs runs, ?_, ?_⟩
+  · intro r hr
+    exact (groupRuns_spec _).2.1 r ((sortedRuns_perm fs runs).mem_iff.1 hr)
+  · obtain ⟨a, b, c⟩ := numbering_core prefix_ fs entries hnd
+    refine ⟨a, b, c, ?_⟩
+    intro e he
+    obtain ⟨r, hr, hr1, hr2⟩ := runs_cover fs entries e he
+    have hrs : r ∈ sorted := (sortedRuns_perm fs _).mem_iff.2 hr
+    obtain ⟨k, hk, hkr⟩ := List.mem_iff_getElem.1 hrs
+    exact ⟨k, hk, by rw [hkr]; exact hr2, by rw [hkr]; exact hr1⟩
+
+/-- the example: Scaffold_2 (300 bp) becomes SUPER_1; Scaffold_1 with its unloc (150 bp) SUPER_2 / SUPER_2_unloc_1 -/
+example : (nameChromosomes "SUPER_".toList exFs [sNone] exEntries).toOption.map (fun fs => fs.map (·.name)) =
+    some ["SUPER_2".toList, "SUPER_2_unloc_1".toList, "SUPER_1".toList] := by decide +kernel
+
+/-- **G3 inside `assemblies_with_scaffolds_fused`.**  If the split loop saw exactly one haplotype key `h` among the
+    painted (rank 1) scaffolds and each of them has an `original_name`, then `assembliesFused` is: number the runs as in
+    `numbering_single`, then sort / count (`outsTail`).  The side conditions of `numbering_single` (entries non-empty,
+    all under `h`, ids pairwise different) are facts about the split loop, proved here (`splitLoop_entries`). -/
+theorem assemblies_fused_single (input : List Scaffold) (b : Build) (asms : C09.Asms) (entries : List (Str × Nat))
+    (h : Str) (fs : List Scaffold)
+    (hsplit : C09.splitLoop b.namer.autosomePrefix (fuseByName b) = (asms, entries, [h], fs))
+    (hg : ∀ e ∈ entries, truthy (fs.getD e.2 default).originalName = true) :
+    entries ≠ [] ∧ (∀ e ∈ entries, e.1 = h) ∧ (entries.map (·.2)).Nodup ∧
+    assembliesFused input b =
+      C09.outsTail input b asms
+        (nameRuns b.namer.autosomePrefix
+          ((List.range (sortedRuns fs (groupRuns (origPairs fs entries))).length).zip
+            (sortedRuns fs (groupRuns (origPairs fs entries)))) fs) := by
+  have hinv := splitLoop_entries b.namer.autosomePrefix (fuseByName b)
+  rw [hsplit] at hinv
+  obtain ⟨i1, i2, i3⟩ := hinv
+  have hh : ∀ e ∈ entries, e.1 = h := fun e he => by simpa using i2 e he
+  -- `haps` is only ever extended together with `entries`
+  have hne : entries ≠ [] := by
+    intro hnil
+    have hloop : ∀ (l : List Nat) (acc : C09.SplitSt), (acc.2.1 = [] → acc.2.2.1 = []) →
+        ((l.foldl (C09.splitStep b.namer.autosomePrefix) acc).2.1 = [] →
+          (l.foldl (C09.splitStep b.namer.autosomePrefix) acc).2.2.1 = []) := by
+      intro l
+      induction l with
+      | nil => intro acc h; exact h
+      | cons sid r ih =>
+        intro acc hacc
+        simp only [List.foldl_cons]
+        apply ih
+        rcases splitStep_entries b.namer.autosomePrefix acc sid with ⟨e1, e2⟩ | ⟨h', e1, _⟩
+        · rw [e1, e2]; exact hacc
+        · rw [e1]; intro hc; simp at hc
+    have := hloop (List.range (fuseByName b).length) ([], [], [], fuseByName b) (fun _ => rfl)
+    unfold C09.splitLoop at hsplit
+    rw [hsplit] at this
+    exact absurd (this hnil) (by simp)
+  refine ⟨hne, hh, i1, ?_⟩
+  rw [C09.assembliesFused_eq, hsplit, finishAssemblies_eq_name]
+  simp only [List.isEmpty_cons, Bool.false_eq_true, if_false]
+  rw [nameChromosomes_single _ fs h entries hne hh hg]
+  rfl
+
+/-! ## G4  the new names are unique -/
+
+/-- `prefix ++ str(i)` is injective in `i` -/
+theorem chr_name_injective (p : Str) (i j : Nat) (e : p ++ natToStr i = p ++ natToStr j) : i = j :=
+  natToStr_inj i j (List.append_cancel_left e)
+
+/-- the numbers `1..n` give `n` different chromosome names -/
+theorem chr_numbers_nodup (p : Str) (n : Nat) : ((List.range n).map (fun k => p ++ natToStr (k + 1))).Nodup := by
+  refine List.Pairwise.map _ ?_ List.nodup_range
+  intro a b hne hab
+  exact hne (by have := chr_name_injective p _ _ hab; omega)
+
+/-- generated names are read back uniquely: `<prefix><i><s> = <prefix><j><s'>` forces `i = j` and `s = s'` whenever
+    the remainders do not start with a digit (`[]` for a chromosome, `_unloc_<k>` for an unloc): so chromosomes of
+    different groups, unlocs of different groups, and a chromosome and any unloc never share a name, and within a
+    group `_unloc_<k>` = `_unloc_<k'>` only for `k = k'`. -/
+theorem generated_names_unique (p s s' : Str) (i j : Nat) (hs : C20.NoDigitHead s) (hs' : C20.NoDigitHead s')
+    (e : p ++ natToStr i ++ s = p ++ natToStr j ++ s') : i = j ∧ s = s' :=
+  chr_name_inj p s s' i j hs hs' e
+
+theorem unloc_suffix_facts (k k' : Nat) :
+    unlocSuffix k = "_unloc_".toList ++ natToStr k ∧ C20.NoDigitHead (unlocSuffix k) ∧ unlocSuffix k ≠ [] ∧
+    (unlocSuffix k = unlocSuffix k' → k = k') :=
+  ⟨rfl, noDigitHd_unloc k, by simp [unlocSuffix], unlocSuffix_inj k k'⟩
+
+/-- **G4.**  Let every `ChrNamer` scaffold be called `<its Pretext name> ++ suf` with `suf` empty or not starting with
+    a digit and not containing the Pretext name again (`PieceShape`: the chromosome itself and `_unloc_<k>` pieces —
+    this is what `unloc_names` / `plain_piece_name` above establish for `label_scaffold`), and let two different
+    scaffolds of the same Pretext scaffold have different names (`unloc_names_nodup`).  Then after `name_chromosomes`
+    all of them carry pairwise different names, each of the form `prefix ++ str(k+1) ++ suf`. -/
+theorem names_unique_autosomes (prefix_ : Str) (fs : List Scaffold) (h : Str) (entries : List (Str × Nat))
+    (hne : entries ≠ []) (hh : ∀ e ∈ entries, e.1 = h)
+    (hg : ∀ e ∈ entries, truthy (fs.getD e.2 default).originalName = true) (hnd : (entries.map (·.2)).Nodup)
+    (hshape : ∀ e ∈ entries, PieceShape fs e.2)
+    (hdist : ∀ e ∈ entries, ∀ e' ∈ entries, e.2 ≠ e'.2 → origOf fs e.2 = origOf fs e'.2 →
+      (fs.getD e.2 default).name ≠ (fs.getD e'.2 default).name) :
+    ∃ fs', nameChromosomes prefix_ fs [h] entries = .ok fs' ∧
+      (entries.map (fun e => (fs'.getD e.2 default).name)).Nodup ∧
+      (∀ e ∈ entries, ∀ suf, (fs.getD e.2 default).name = origOf fs e.2 ++ suf → occursIn (origOf fs e.2) suf = false →
+        ∃ k, k < (groupRuns (origPairs fs entries)).length ∧
+          fs'.getD e.2 default = { fs.getD e.2 default with name := prefix_ ++ natToStr (k + 1) ++ suf }) := by
+  refine ⟨_, nameChromosomes_single prefix_ fs h entries hne hh hg,
+    new_names_nodup prefix_ fs entries hnd hg hshape hdist, ?_⟩
+  intro e he suf hn ho
+  obtain ⟨k, hk, _, _, hfs⟩ := entry_new_name prefix_ fs entries hnd hg e he suf hn ho
+  exact ⟨k, by rw [← (sortedRuns_perm fs _).length_eq]; exact hk, hfs⟩
+
+/-- the hypotheses of G4 on the example -/
+example : (∀ e ∈ exEntries, PieceShape exFs e.2) := by
+  intro e he
+  simp only [exEntries, List.mem_cons, List.not_mem_nil, or_false] at he
+  rcases he with rfl | rfl | rfl
+  · exact ⟨[], by decide, noDigitHd_nil, by decide⟩
+  · exact ⟨unlocSuffix 1, by decide, noDigitHd_unloc 1, by decide⟩
+  · exact ⟨[], by decide, noDigitHd_nil, by decide⟩
+example : ∀ e ∈ exEntries, ∀ e' ∈ exEntries, e.2 ≠ e'.2 → origOf exFs e.2 = origOf exFs e'.2 →
+    (exFs.getD e.2 default).name ≠ (exFs.getD e'.2 default).name := by decide
+
+/-! ## G5  order of the scaffolds inside every output assembly -/
+
+/-- **G5.**  Every assembly returned by `assemblies_with_scaffolds_fused` lists its scaffolds in `smart_sort_scaffolds`
+    order: ranks non-decreasing (1 autosomes, 2 named chromosomes, 3 unplaced) and, inside one rank, non-decreasing
+    natural key of the name. -/
+theorem output_order (input : List Scaffold) (b : Build) (outs : List OutAsm) (stats : Stats)
+    (h : assembliesFused input b = .ok (outs, stats)) :
+    ∀ o ∈ outs,
+      o.scaffolds.Pairwise (fun x y => x.rank ≤ y.rank) ∧
+      o.scaffolds.Pairwise (fun x y => x.rank = y.rank → keyLe (C20.keyOf x.name) (C20.keyOf y.name) = true) := by
+  rw [C09.assembliesFused_eq] at h
+  generalize C09.splitLoop b.namer.autosomePrefix (fuseByName b) = st at h
+  obtain ⟨asms, entries, haps, fs⟩ := st
+  obtain ⟨fs', _, htail⟩ := finishAssemblies_named input b asms entries haps fs _ h
+  intro o ho
+  obtain ⟨a, _, _, _, hsc⟩ := outsTail_mem input b asms fs' outs stats htail o ho
+  have hs : smartSort (a.2.2.map (fun sid => fs'.getD sid default)) = .ok o.scaffolds := by
+    rw [hsc]; exact C20.smartSort_total _
+  exact ⟨C20.rank_first _ _ hs, C20.smartSort_sorted_within_rank _ _ hs⟩
+
+/-- in such an assembly a scaffold with a strictly smaller natural key and the same rank stands strictly earlier -/
+theorem output_position (input : List Scaffold) (b : Build) (outs : List OutAsm) (stats : Stats)
+    (h : assembliesFused input b = .ok (outs, stats)) (o : OutAsm) (ho : o ∈ outs)
+    (i j : Nat) (hi : i < o.scaffolds.length) (hj : j < o.scaffolds.length)
+    (hr : o.scaffolds[i].rank = o.scaffolds[j].rank)
+    (hlt : C20.keyLt (C20.keyOf o.scaffolds[i].name) (C20.keyOf o.scaffolds[j].name)) : i < j :=
+  sorted_position o.scaffolds (output_order input b outs stats h o ho).2 i j hi hj hr hlt
+
+/-- **G5, names of the shape produced by G2/G3.**  With a prefix satisfying `C20.PrefixOk` (e.g. `SUPER_`): if an
+    output assembly contains, with equal rank, chromosome `prefix n` at position `i`, its unloc
+    `prefix n _unloc_ k` at position `j` and a later chromosome `prefix n'` (`n < n'`) at position `l`, then
+    `i < j < l`: the unlocs of an autosome come after it and before the next autosome. -/
+theorem unloc_directly_after (input : List Scaffold) (b : Build) (outs : List OutAsm) (stats : Stats)
+    (h : assembliesFused input b = .ok (outs, stats)) (o : OutAsm) (ho : o ∈ outs) (p : Str) (hp : C20.PrefixOk p)
+    (n n' k : Nat) (hn : n < n') (i j l : Nat) (hi : i < o.scaffolds.length) (hj : j < o.scaffolds.length)
+    (hl : l < o.scaffolds.length)
+    (hri : o.scaffolds[i].rank = o.scaffolds[j].rank) (hrl : o.scaffolds[j].rank = o.scaffolds[l].rank)
+    (ni : o.scaffolds[i].name = p ++ natToStr n)
+    (nj : o.scaffolds[j].name = p ++ natToStr n ++ C20.unlocInfix ++ natToStr k)
+    (nl : o.scaffolds[l].name = p ++ natToStr n') : i < j ∧ j < l := by
+  obtain ⟨h1, h2⟩ := C20.unloc_between p n n' k hp hn
+  exact ⟨output_position input b outs stats h o ho i j hi hj hri (by rw [ni, nj]; exact h1),
+         output_position input b outs stats h o ho j l hj hl hrl (by rw [nj, nl]; exact h2)⟩
+
+/-- the unlocs of one chromosome stand in the order of their own numbers -/
+theorem unlocs_in_order (input : List Scaffold) (b : Build) (outs : List OutAsm) (stats : Stats)
+    (h : assembliesFused input b = .ok (outs, stats)) (o : OutAsm) (ho : o ∈ outs) (p : Str)
+    (n k k' : Nat) (hk : k < k') (i j : Nat) (hi : i < o.scaffolds.length) (hj : j < o.scaffolds.length)
+    (hr : o.scaffolds[i].rank = o.scaffolds[j].rank)
+    (ni : o.scaffolds[i].name = p ++ natToStr n ++ C20.unlocInfix ++ natToStr k)
+    (nj : o.scaffolds[j].name = p ++ natToStr n ++ C20.unlocInfix ++ natToStr k') : i < j :=
+  output_position input b outs stats h o ho i j hi hj hr (by rw [ni, nj]; exact C20.unloc_order p n k k' hk)
+
+/-! ## non-vacuity: `assemblies_with_scaffolds_fused` end to end -/
+
+def exFrag (nm : Str) (stop : Int) : Fragment := { name := nm, start := 1, stop := stop, strand := 1 }
+def exPiece (nm orig ctg : Str) (len : Int) : Res :=
+  { o := { bait := exFrag orig len, start := 1, stop := len, rows := [.frag (exFrag ctg len)], name := nm, rank := 1,
+           originalName := some orig, originalTags := some [sPainted] }, added := true }
+/-- Pretext scaffolds Scaffold_1 (100 bp) with one unloc (50 bp) and Scaffold_2 (300 bp), all painted -/
+def exBuild : Build :=
+  { namer := { autosomePrefix := "SUPER_".toList },
+    store := [exPiece "Scaffold_1".toList "Scaffold_1".toList "ctgA".toList 100,
+              exPiece "Scaffold_1_unloc_1".toList "Scaffold_1".toList "ctgB".toList 50,
+              exPiece "Scaffold_2".toList "Scaffold_2".toList "ctgC".toList 300],
+    nextOid := 0, joinGap := none, err := 1 }
+
+/-- the larger Pretext scaffold becomes SUPER_1, the smaller one SUPER_2 and its unloc follows it directly -/
+example : (assembliesFused [] exBuild).toOption.map
+      (fun r => r.1.map (fun a => (a.key, a.scaffolds.map (fun s => (s.name, s.fragmentsLength))))) =
+    some [(none, [("SUPER_1".toList, 300), ("SUPER_2".toList, 100), ("SUPER_2_unloc_1".toList, 50)])] := by
+  decide +kernel
+
+/-- the split loop of the example has the single haplotype key `"None"` (hypothesis of `assemblies_fused_single`) -/
+example : ∃ asms entries fs, C09.splitLoop exBuild.namer.autosomePrefix (fuseByName exBuild) = (asms, entries, [sNone], fs) ∧
+    ∀ e ∈ entries, truthy (fs.getD e.2 default).originalName = true :=
+  ⟨_, _, _, by decide +kernel, by decide +kernel⟩
+
+example : C20.PrefixOk "SUPER_".toList := by decide
+
+/-! ## stated goal, NOT proved: two (or more) haplotypes
+
+  With `haps = h₁ :: h₂ :: …` (`other_haplotypes` non-empty) `build_groups` opens a new group when
+    (a) the incoming haplotype differs from the previous scaffold's and already has an entry in the current group, or
+    (b) the haplotype is unchanged, the Pretext name changed, and the previous Pretext scaffold carries the
+        `Singleton` tag;
+  otherwise the scaffold joins the current group (so a group may hold several Pretext scaffolds per haplotype, which
+  `name_chromosome` distinguishes by the suffixes A, B, C … from `multiChrList`).  `check_groups` then reports an
+  error (`ChrNamerError`) exactly for a group whose FIRST haplotype has no scaffold (`<empty>`) or more than one
+  Pretext scaffold (`<Consecutive h₁>`), and the groups are numbered by the length of the first haplotype's scaffold.
+
+  theorem build_groups_multi (fs) (haps) (hlen : 2 ≤ haps.length) (entries) … :
+      buildGroups fs haps entries = .ok (groupsSpec fs haps entries)        -- `groupsSpec` = rules (a), (b) above
+  theorem groups_have_errors_iff (groups) :
+      groupsHaveErrors groups = true ↔ ∃ g ∈ groups, ∃ h first rest, g = (h, first) :: rest ∧ first.length ≠ 1
+  theorem numbering_multi … :  homologues grouped with the first haplotype's chromosome share its number, and the
+      number is the rank of the FIRST haplotype's length (stable, descending).
+-/
 
 end AgpTpf.C10
